@@ -80,6 +80,10 @@ def f10(r):
             key_to_use = "ext_"+str(be_id)
 ''', '''        key_to_use = be_id
 ''')
+@fix("F11")  # C09: triangle clean-up iterated the live ownEdges while SmallEdge.__del__ shrank it
+def f11(r):
+    patch(r, 'forsys/skeleton.py', "            its_edges = self.vertices[vertex_id_to_delete].ownEdges\n",
+          "            its_edges = self.vertices[vertex_id_to_delete].ownEdges.copy()\n")
 if __name__ == "__main__":
     root = sys.argv[1]
     for name in (sys.argv[2:] or list(FIXES)):
